@@ -48,10 +48,14 @@ impl LanguageServer {
         let stdin = tokio::io::stdin();
         let mut framed_read = FramedRead::new(stdin, io::LSCodec);
 
-        let result: Result<()> = async {
-            phases::initialization(&mut self, &mut framed_read, iotx.clone())
+        let result: Result<Next> = async {
+            if phases::initialization(&mut self, &mut framed_read, iotx.clone())
                 .await
-                .wrap_err("Unexpected error occured during initialization")?;
+                .wrap_err("Unexpected error occured during initialization")?
+                == Next::Exit
+            {
+                return Ok(Next::Exit);
+            }
 
             // spawn thread which handles document synchronization
             let (doctx, docrx) = mpsc::channel(32);
@@ -61,14 +65,18 @@ impl LanguageServer {
                 self.client_details.diagnostics,
             )));
 
-            phases::main(&mut framed_read, iotx.clone(), doctx.clone())
+            if phases::main(&mut framed_read, iotx.clone(), doctx.clone())
                 .await
-                .wrap_err("Unexpected error occured during main phase")?;
+                .wrap_err("Unexpected error occured during main phase")?
+                == Next::Exit
+            {
+                return Ok(Next::Exit);
+            }
 
             phases::shutdown(&mut framed_read, iotx.clone())
                 .await
                 .wrap_err("Unexpected error occured during shutdown")?;
-            Ok(())
+            Ok(Next::Phase)
         }
         .await;
 
@@ -78,12 +86,25 @@ impl LanguageServer {
         for handle in handles {
             handle.await.expect("Cannot await handle");
         }
-        result
+        if result? == Next::Exit {
+            // ungraceful exit, after the answers to the preceding requests have been written
+            std::process::exit(1);
+        }
+        Ok(())
     }
 }
 
+/// What follows a phase
+#[derive(Debug, PartialEq, Eq)]
+enum Next {
+    /// the next phase
+    Phase,
+    /// the end of the process, because the client sent `exit` without `shutdown`
+    Exit,
+}
+
 mod phases {
-    use super::LanguageServer;
+    use super::{LanguageServer, Next};
     use crate::{
         document::{self, DocumentRequest},
         error::{ErrorCode, ResponseError},
@@ -121,7 +142,7 @@ mod phases {
         ls: &mut LanguageServer,
         framed_read: &mut FramedRead<Stdin, LSCodec>,
         iotx: Sender<Message>,
-    ) -> Result<()> {
+    ) -> Result<Next> {
         while let Some(frame) = framed_read.next().await {
             let message = frame.wrap_err("Recieved frame with error")?;
             match message {
@@ -144,7 +165,7 @@ mod phases {
                 }
                 Message::Notification(notification) => {
                     if notification.method.as_str() == Exit::METHOD {
-                        std::process::exit(1) // ungraceful exit
+                        return Ok(Next::Exit);
                     }
                 }
                 Message::Response(response) => {
@@ -166,7 +187,7 @@ mod phases {
                 }
                 Message::Notification(notification) => match notification.method.as_str() {
                     Initialized::METHOD => break, // Server is properly initialized and can start working
-                    Exit::METHOD => std::process::exit(1), // ungraceful exit
+                    Exit::METHOD => return Ok(Next::Exit),
                     _ => { /* drop all other notifications */ }
                 },
                 Message::Response(response) => {
@@ -174,14 +195,14 @@ mod phases {
                 }
             };
         }
-        Ok(())
+        Ok(Next::Phase)
     }
 
     pub(super) async fn main(
         framed_read: &mut FramedRead<Stdin, LSCodec>,
         iotx: Sender<Message>,
         doctx: Sender<DocumentRequest>,
-    ) -> Result<()> {
+    ) -> Result<Next> {
         while let Some(frame) = framed_read.next().await {
             let message = frame.wrap_err("Recieved frame with error")?;
             match message {
@@ -199,7 +220,7 @@ mod phases {
                             let (_, response) = request.split();
                             let response = response.into_result_response(Value::Null);
                             iotx.send(Message::Response(response)).await?;
-                            return Ok(());
+                            return Ok(Next::Phase);
                         }
                         GotoDeclaration::METHOD => {
                             respond!(request, features::goto::declaration, doctx.clone())
@@ -266,7 +287,7 @@ mod phases {
                         DidCloseTextDocument::METHOD => {
                             note!(notification, document::close, doctx.clone());
                         }
-                        Exit::METHOD => std::process::exit(1), // ungraceful exit
+                        Exit::METHOD => return Ok(Next::Exit),
                         _ => { /* drop all other notifications */ }
                     };
                 }
@@ -275,7 +296,7 @@ mod phases {
                 }
             }
         }
-        Ok(())
+        Ok(Next::Phase)
     }
 
     pub(super) async fn shutdown(
